@@ -19,6 +19,13 @@ Proof.
   cbn [eval_cur bind item]. unfold item_scope. rewrite Es. cbn [nth_error]. rewrite Hl. reflexivity.
 Qed.
 
+Lemma eval_this_PV cx G n : knowsP cx G -> In n G -> exists z, eval cx (this_ n) = Ok (VInt z).
+Proof.
+  intros [Hs Hk] Hin. destruct (Hk n Hin) as (z & Hl). exists z.
+  unfold eval, this_, ctx_vals in *. destruct (c_scopes cx) as [|s t] eqn:Es; [contradiction|].
+  cbn [eval_cur bind item]. unfold item_scope. rewrite Es. cbn [nth_error]. rewrite Hl. reflexivity.
+Qed.
+
 Lemma knowsP_set_other cx G k v : knowsP cx G -> ~ In k G -> knowsP (ctx_set cx k v) G.
 Proof.
   intros [Hs Hk] Hn. split.
@@ -71,9 +78,9 @@ Proof. unfold memb. intros H. apply existsb_exists in H as (x & Hin & E). apply 
 Definition elem_of (c : con) : option con :=
   match c with CArray _ el | CPadded _ el _ | CFixedSized _ el => Some el | _ => None end.
 
-Lemma OkG_sized G c : szb G c = true -> (forall el, elem_of c = Some el -> dfrag false el = true -> Pokc el) -> OkG G c.
+Lemma OkG_sized G c : szb0 G c = true -> (forall el, elem_of c = Some el -> dfrag false el = true -> Pokc el) -> OkG G c.
 Proof.
-  intros Hs Hel cx p s Hk. unfold szb in Hs.
+  intros Hs Hel cx p s Hk. unfold szb0, szb0_ in Hs.
   destruct c; try discriminate Hs.
   - (* Bytes *) destruct len as [| |a k|v| | |]; try discriminate Hs. destruct a as [[]| | | | | |]; try discriminate Hs. destruct k as [k|]; try discriminate Hs.
     destruct (eval_this_P cx G k Hk (memb_In _ _ Hs)) as (z & Ez). cbn [parse]. fold (this_ k). rewrite Ez. cbn [bind].
@@ -90,6 +97,19 @@ Proof.
     destruct (z <? 0)%Z; [reflexivity|]. apply okc_bind; [apply okc_iread|intros [d s1]]. apply okc_bind; [apply (Hel _ eq_refl He)|intros [v s2]; exact I].
 Qed.
 
+(* members chosen by a parsed integer field *)
+Lemma OkG_ite G k a b : In k G -> OkG G a -> OkG G b -> OkG G (CIfThenElse (this_ k) a b).
+Proof.
+  intros Hin Ha Hb cx p s Hk. cbn [parse]. destruct (eval_this_PV cx G k Hk Hin) as (z & ->). cbn [bind].
+  destruct (truthy (VInt z)); [apply Ha, Hk|apply Hb, Hk].
+Qed.
+
+Lemma OkG_switch G k cases d : In k G -> Forall (fun vc => OkG G (snd vc)) cases -> OkG G d -> OkG G (CSwitch (this_ k) cases d).
+Proof.
+  intros Hin Hcs Hd cx p s Hk. cbn [parse]. destruct (eval_this_PV cx G k Hk Hin) as (z & ->). cbn [bind hashable negb].
+  induction Hcs as [|[kv c'] t Hc Ht IH]; [apply Hd, Hk|]. destruct (val_eqb (VInt z) kv); [apply Hc, Hk|exact IH].
+Qed.
+
 Lemma OkG_renamed G n c : OkG G c -> OkG G (CRenamed n c).
 Proof. intros H cx p s Hk. cbn [parse]. apply H, Hk. Qed.
 
@@ -101,7 +121,7 @@ Proof.
   induction ms as [|m t IH]; intros G Hg Hnd Hfresh HM cx p acc s Hk; cbn [struct_loop]; [exact I|].
   assert (Hnd' : NoDup (names t)) by (rewrite names_cons in Hnd; apply nodup_app_r in Hnd; exact Hnd).
   assert (HM' : forall m0, In m0 t -> forall G', memok G' m0 = true -> OkG G' m0) by (intros m0 Hin; apply HM; right; exact Hin).
-  cbn [dgo] in Hg.
+  rewrite dgo_cons in Hg.
   assert (Use : memok G m && dgo G t = true -> okc (match parse m cx p s with
       | Ok (v, s') => match name_of m with Some n => struct_loop parse t (ctx_set cx n v) p (dict_set n v acc) s' | None => struct_loop parse t cx p acc s' end
       | Err EStopField q => if is_stopif m then Ok (acc, cx, s) else unsupported
@@ -116,18 +136,18 @@ Proof.
         intros Hin. apply (Hfresh n Hin). rewrite names_cons, En. left. reflexivity.
       + apply (IH G H2 Hnd' Hfresh' HM'). exact Hk.
     - destruct e; try exact Hp. destruct (is_stopif m); [exact I|reflexivity]. }
-  destruct m; try (apply Use; exact Hg).
-  destruct (int_leaf m) eqn:El; [|apply Use; exact Hg].
+  destruct (def_name m) as [n|] eqn:Ed; [|apply Use; exact Hg].
+  destruct (def_name_some m n Ed) as (c' & -> & El).
   (* an integer field: defines its name *)
   cbn [name_of]. cbn [parse].
-  assert (Hpk : Pokc m) by (apply (parse_only_construct_errors m false); destruct m; try discriminate El; cbn [int_leaf frag] in *; exact El).
-  pose proof (Hpk cx (p ++ [n]) s) as Hp. pose proof (int_leaf_parses_int m El cx (p ++ [n]) s) as Hi.
-  destruct (parse m cx (p ++ [n]) s) as [[v s']|e q].
+  assert (Hpk : Pokc c') by (apply (parse_only_construct_errors c' false); destruct c'; try discriminate El; cbn [int_leaf frag] in *; exact El).
+  pose proof (Hpk cx (p ++ [n]) s) as Hp. pose proof (int_leaf_parses_int c' El cx (p ++ [n]) s) as Hi.
+  destruct (parse c' cx (p ++ [n]) s) as [[v s']|e q].
   - destruct (Hi v s' eq_refl) as (z & ->).
     assert (Hn_t : ~ In n (names t)) by (rewrite names_cons in Hnd; cbn [name_of app] in Hnd; inversion Hnd; assumption).
     apply (IH (n :: G) Hg Hnd'); [|exact HM'|apply knowsP_set_new, Hk].
     intros k [<-|Hin]; [exact Hn_t|]. intros Hin'. apply (Hfresh k Hin). rewrite names_cons. apply in_or_app. right. exact Hin'.
-  - destruct e; try exact Hp. destruct m; try discriminate El; reflexivity.
+  - destruct e; try exact Hp. destruct c'; try discriminate El; reflexivity.
 Qed.
 
 Definition PE3 (c : con) : Prop :=
@@ -142,6 +162,11 @@ Qed.
 
 Lemma dfrag_stop' e cs : forallb (dfrag e) cs = true -> Forall (fun c => is_stopif c = false) cs.
 Proof. intros H. apply Forall_forall. intros c Hin. rewrite forallb_forall in H. apply (dfrag_not_stopif e), H, Hin. Qed.
+
+Lemma brk_OkG c G : PE3 c -> brk G c = true -> OkG G c.
+Proof.
+  intros (I1 & I2 & _) Hb. unfold brk, brk_ in Hb. apply orb_prop in Hb as [Hb|Hb]; [apply I2, szb0_szb, Hb|apply OkG_of_Pokc, (I1 false), Hb].
+Qed.
 
 Theorem dep_parse_only_construct_errors : forall c, PE3 c.
 Proof.
@@ -161,7 +186,7 @@ Proof.
   - (* Bytes *) apply PE3_plain; [intros; discriminate| |].
     + intros e Hf cx p s. cbn [dfrag] in Hf. destruct a0; try discriminate. destruct v; try discriminate.
       cbn [parse]. change (XConst (VInt z)) with (kint z). rewrite eval_int_kint. cbn [bind]. apply okc_bind; [apply okc_iread|intros [d s']; exact I].
-    + intros G Hs. apply (OkG_sized G _ Hs). intros el He. discriminate He.
+    + intros G Hs. unfold szb, szb_ in Hs. rewrite orb_false_r in Hs. apply (OkG_sized G _ Hs). intros el He. discriminate He.
   - (* GreedyBytes *) apply PE3_plain; [intros; discriminate| |apply NoSZ; reflexivity]. intros e _ cx p s. cbn [parse]. destruct (iread_all s); exact I.
   - (* Pass *) apply PE3_plain; [intros; discriminate| |apply NoSZ; reflexivity]. intros e _ cx p s. exact I.
   - (* Struct *) apply PE3_plain; [intros; discriminate| |apply NoSZ; reflexivity]. intros e Hf cx p s. rewrite dfrag_struct in Hf. apply andb_prop in Hf as [Hn Hg].
@@ -171,15 +196,26 @@ Proof.
   - (* Sequence *) apply PE3_plain; [intros; discriminate| |apply NoSZ; reflexivity]. intros e Hf cx p s. cbn [dfrag] in Hf. cbn [parse].
     apply okc_bind; [|intros [vs s']; exact I]. apply okc_seq_loop; [|apply (dfrag_stop' false), Hf].
     rewrite Forall_forall in H |- *. intros c Hin. destruct (H c Hin) as (HA & _ & _). apply (HA false). rewrite forallb_forall in Hf. apply Hf, Hin.
+  - (* IfThenElse on a parsed field *) apply PE3_plain; [intros; discriminate|intros e Hf; discriminate Hf|].
+    intros G Hm. unfold szb, szb_ in Hm. cbn [szb0_ orb] in Hm.
+    destruct a0 as [| |a0 k|v| | |]; try discriminate Hm. destruct a0 as [[]| | | | | |]; try discriminate Hm. destruct k as [k|]; try discriminate Hm.
+    apply andb_prop in Hm as [Hm Hb2]. apply andb_prop in Hm as [Hk Hb1].
+    apply OkG_ite; [apply memb_In, Hk|apply brk_OkG; assumption|apply brk_OkG; assumption].
+  - (* Switch on a parsed field *) apply PE3_plain; [intros; discriminate|intros e Hf; discriminate Hf|].
+    intros G Hm. unfold szb, szb_ in Hm. cbn [szb0_ orb] in Hm.
+    destruct a0 as [| |a0 k|v| | |]; try discriminate Hm. destruct a0 as [[]| | | | | |]; try discriminate Hm. destruct k as [k|]; try discriminate Hm.
+    apply andb_prop in Hm as [Hm Hb2]. apply andb_prop in Hm as [Hk Hb1].
+    apply OkG_switch; [apply memb_In, Hk| |apply brk_OkG; assumption].
+    rewrite Forall_forall in H |- *. intros vc Hin. apply brk_OkG; [apply H, Hin|]. rewrite forallb_forall in Hb1. apply Hb1, Hin.
   - (* Array *) destruct IHc as (I1 & _ & _). apply PE3_plain; [intros; discriminate| |].
     + intros e Hf cx p s. cbn [dfrag] in Hf. destruct a0; try discriminate. destruct v; try discriminate. apply andb_prop in Hf as [_ Hc].
       cbn [parse]. change (XConst (VInt z)) with (kint z). rewrite eval_int_kint. cbn [bind]. destruct (z <? 0)%Z; [reflexivity|].
       apply okc_bind; [apply okc_count_loop, (I1 false Hc)|intros [vs s']; exact I].
-    + intros G Hs. apply (OkG_sized G _ Hs). intros el He Hd. injection He as <-. apply (I1 false), Hd.
+    + intros G Hs. unfold szb, szb_ in Hs. rewrite orb_false_r in Hs. apply (OkG_sized G _ Hs). intros el He Hd. injection He as <-. apply (I1 false), Hd.
   - (* Renamed *) destruct IHc as (I1 & I2 & _). split; [|split].
     + intros e Hf cx p s. cbn [dfrag] in Hf. cbn [parse]. apply (I1 e Hf).
     + intros G Hs. discriminate Hs.
-    + intros G Hm. cbn [memok] in Hm. apply OkG_renamed. apply orb_prop in Hm as [Hm|Hm]; [apply I2, Hm|apply OkG_of_Pokc, (I1 false), Hm].
+    + intros G Hm. rewrite memok_eq in Hm. cbn [strip] in Hm. apply OkG_renamed. apply orb_prop in Hm as [Hm|Hm]; [apply I2, Hm|apply OkG_of_Pokc, (I1 false), Hm].
   - (* Const *) destruct IHc as (I1 & _ & _). apply PE3_plain; [intros; discriminate| |apply NoSZ; reflexivity]. intros e Hf cx p s. cbn [dfrag] in Hf.
     assert (Hc : Pokc c).
     { destruct a0; try discriminate.
@@ -193,7 +229,7 @@ Proof.
       cbn [parse]. change (XConst (VInt z)) with (kint z). rewrite eval_int_kint. cbn [bind]. destruct (z <? 0)%Z; [reflexivity|].
       apply okc_bind; [apply (I1 false Hc)|intros [v s1]]. cbv zeta. destruct (_ - _ <? 0)%Z; [reflexivity|].
       apply okc_bind; [apply okc_iread|intros [d s2]; exact I].
-    + intros G Hs. apply (OkG_sized G _ Hs). intros el He Hd. injection He as <-. apply (I1 false), Hd.
+    + intros G Hs. unfold szb, szb_ in Hs. rewrite orb_false_r in Hs. apply (OkG_sized G _ Hs). intros el He Hd. injection He as <-. apply (I1 false), Hd.
   - (* Aligned *) destruct IHc as (I1 & _ & _). apply PE3_plain; [intros; discriminate| |apply NoSZ; reflexivity].
     intros e Hf cx p s. cbn [dfrag] in Hf. destruct a0; try discriminate. destruct v; try discriminate. apply andb_prop in Hf as [_ Hc].
     cbn [parse]. change (XConst (VInt z)) with (kint z). rewrite eval_int_kint. cbn [bind]. destruct (z <? 2)%Z; [reflexivity|].
@@ -209,7 +245,7 @@ Proof.
     + intros e Hf cx p s. cbn [dfrag] in Hf. destruct a0; try discriminate. destruct v; try discriminate. apply andb_prop in Hf as [_ Hc].
       cbn [parse]. change (XConst (VInt z)) with (kint z). rewrite eval_int_kint. cbn [bind]. destruct (z <? 0)%Z; [reflexivity|].
       apply okc_bind; [apply okc_iread|intros [d s1]]. apply okc_bind; [apply (I1 false Hc)|intros [v s2]; exact I].
-    + intros G Hs. apply (OkG_sized G _ Hs). intros el He Hd. injection He as <-. apply (I1 false), Hd.
+    + intros G Hs. unfold szb, szb_ in Hs. rewrite orb_false_r in Hs. apply (OkG_sized G _ Hs). intros el He Hd. injection He as <-. apply (I1 false), Hd.
 Qed.
 
 Theorem C06_dependent_only_construct_errors c kw data e q : dfrag false c = true ->
@@ -223,4 +259,9 @@ Qed.
 Example ex_dep_errors :
   parse_bytes ex_dep [] [x02; x01; x41] = Err EStream (Some [[x64]]) /\
   parse_bytes ex_dep [] [x00; x01; x05; x00; x58] = Err EStream (Some [[x72]; [x70]]).
+Proof. split; vm_compute; reflexivity. Qed.
+
+Example ex_tlv_errors :
+  parse_bytes ex_tlv [] [x01; x03; x41] = Err EStream (Some [[x76]]) /\
+  parse_bytes ex_tlv [] [x02; x01; x00; x05; x80] = Err EStream (Some [[x66]]).
 Proof. split; vm_compute; reflexivity. Qed.
